@@ -38,13 +38,17 @@ CONSTANTS MaxDepth, MaxDecl
 
 (* ---- syntax -------------------------------------------------------------*)
 ItemCtx == {"mod", "modI", "fn", "fnI", "impl", "trait"}      \* I = the declaration is an inner attribute
+(* an out-of-line module: `mod x;` whose body is a file of its own; the declaration of names is an
+   inner attribute at the top of that file (modfileI) or an outer attribute on `mod x;` (modfileO) *)
+FileCtx == {"modfileI", "modfileO"}
 BodyBlocks == {"ifb", "closure", "loopb", "armb", "blockb", "unsafeb"}
-Constructs == ItemCtx \cup BodyBlocks \cup {"method", "letd"}
-Declaring == ItemCtx \cup {"method", "letd"}                   \* constructs that can carry skip::macros / skip::attributes
+Constructs == ItemCtx \cup FileCtx \cup BodyBlocks \cup {"method", "letd"}
+Declaring == ItemCtx \cup FileCtx \cup {"method", "letd"}                   \* constructs that can carry skip::macros / skip::attributes
 BodyCtx == {"fn", "fnI", "method"} \cup BodyBlocks
 (* what may stand directly inside what ("top" = the file) *)
 Children(c) ==
-  CASE c \in {"top", "mod", "modI"} -> {"mod", "modI", "fn", "fnI", "impl", "trait"}
+  CASE c \in {"top", "mod", "modI", "modfileI", "modfileO"} ->
+         {"mod", "modI", "fn", "fnI", "impl", "trait", "modfileI", "modfileO"}
     [] c \in {"impl", "trait"} -> {"method"}
     [] c \in BodyCtx -> {"fn", "impl"} \cup BodyBlocks \cup {"letd"}
     [] OTHER -> {}
@@ -54,16 +58,18 @@ Steps(c) ==
     [] c \in {"impl", "trait"} -> <<"item", "child">>
     [] c = "method" -> <<"assoc">>
     [] c = "letd" -> <<"stmt">>
+    [] c = "modfileI" -> <<"fileI">>
+    [] c = "modfileO" -> <<"fileO">>
     [] OTHER -> <<"child">>
 (* targets that can stand directly inside a construct *)
 NameTargets(c) ==
-  CASE c \in {"top", "mod", "modI"} -> {"mac_item", "attr_item"}
+  CASE c \in {"top", "mod", "modI", "modfileI", "modfileO"} -> {"mac_item", "attr_item"}
     [] c \in {"impl", "trait"} -> {"mac_assoc", "attr_method"}
     [] c = "letd" -> {"mac_init"}
     [] OTHER -> {"mac_stmt", "mac_expr", "attr_let", "attr_item"}
 IsMacroTarget(t) == t \in {"mac_item", "mac_assoc", "mac_init", "mac_stmt", "mac_expr"}
 SkipNodes(c) ==
-  CASE c \in {"top", "mod", "modI"} ->
+  CASE c \in {"top", "mod", "modI", "modfileI", "modfileO"} ->
          {"fn", "struct", "enum", "union", "impl", "trait", "mod", "const", "static", "type", "use",
           "externcrate", "macrodef", "foreign", "field", "variant", "fn_ml", "struct_ml", "impl_ml"}
     [] c \in {"impl", "trait"} -> {"afn", "aconst", "atype", "afn_ml"}
@@ -93,20 +99,30 @@ FromPsess(cfg) == [m |-> CASE cfg = "star" -> AllCtx [] cfg = "m" -> Values({"m"
                    a |-> Values({})]
 DeclNames(d) == [m |-> IF d \in {"M", "MA"} THEN {"m"} ELSE {}, a |-> IF d \in {"A", "MA"} THEN {"a"} ELSE {}]
 UpdateWithAttrs(ctx, d) == [m |-> Extend(ctx.m, DeclNames(d).m), a |-> Extend(ctx.a, DeclNames(d).a)]
+(* format_file: every file gets a FRESH visitor (from_psess) that is given the attributes of  *)
+(* the crate and (since fix 12a9f29) the inner attributes of the module file itself; what the *)
+(* visitor of the parent file had collected -- names declared on enclosing items of the parent *)
+(* file, or as outer attributes on the `mod x;` declaration -- does not reach it.               *)
+FileStep(st, d, cfg, cr) ==
+  LET fresh == UpdateWithAttrs(FromPsess(cfg), cr)
+  IN IF st = "fileI" THEN UpdateWithAttrs(fresh, d) ELSE fresh
 Step(ctx, st, d, cfg) ==
   CASE st \in {"crate", "item", "assoc"} -> UpdateWithAttrs(ctx, d)
     [] st = "stmt" -> ctx
     [] st = "child" -> LET fresh == FromPsess(cfg)
                        IN [m |-> Update(fresh.m, ctx.m), a |-> Update(fresh.a, ctx.a)]
-RECURSIVE StepsOf(_, _, _, _, _)
-StepsOf(ctx, sts, i, d, cfg) ==
+RECURSIVE StepsOf(_, _, _, _, _, _)
+StepsOf(ctx, sts, i, d, cfg, cr) ==
   IF i > Len(sts) THEN ctx
-  ELSE StepsOf(Step(ctx, sts[i], IF i = 1 THEN d ELSE "none", cfg), sts, i + 1, d, cfg)
-RECURSIVE Walk(_, _, _, _)
-Walk(ctx, path, i, cfg) ==
+  ELSE LET dd == IF i = 1 THEN d ELSE "none"
+           nxt == IF sts[i] \in {"fileI", "fileO"} THEN FileStep(sts[i], dd, cfg, cr)
+                  ELSE Step(ctx, sts[i], dd, cfg)
+       IN StepsOf(nxt, sts, i + 1, d, cfg, cr)
+RECURSIVE Walk(_, _, _, _, _)
+Walk(ctx, path, i, cfg, cr) ==
   IF i > Len(path) THEN ctx
-  ELSE Walk(StepsOf(ctx, Steps(path[i].c), 1, path[i].d, cfg), path, i + 1, cfg)
-OperCtx(crated, path, cfg) == Walk(Step(FromPsess(cfg), "crate", crated, cfg), path, 1, cfg)
+  ELSE Walk(StepsOf(ctx, Steps(path[i].c), 1, path[i].d, cfg, cr), path, i + 1, cfg, cr)
+OperCtx(crated, path, cfg) == Walk(Step(FromPsess(cfg), "crate", crated, cfg), path, 1, cfg, crated)
 Skips(ctx, name) == ctx.all \/ name \in ctx.names
 OperSkipsTarget(crated, path, cfg, t) ==
   LET ctx == OperCtx(crated, path, cfg)
@@ -151,7 +167,10 @@ OptOuts == {"inner_skip", "inner_depr", "inner_cfg_skip", "disable_all", "ignore
             "skipped_mod_decl", "inner_skip_child",
             \* the skipped declaration stands in a file that is not the root / in an inline module
             \* of such a file / inside cfg_if! (other entry points of the module resolver)
-            "skipped_mod_decl_nonroot", "skipped_mod_decl_inline", "skipped_mod_decl_cfg_if"}
+            "skipped_mod_decl_nonroot", "skipped_mod_decl_inline", "skipped_mod_decl_cfg_if",
+            \* other spellings of the @generated marker within the first lines of the file
+            "generated_block1", "generated_blockend", "generated_aftercode", "generated_docinner",
+            "generated_star", "generated_line5"}
 Modes == {"files", "check", "list", "stdout_diff"}
 OptOutScenarios ==
   (path = <<>> /\ crated = "none") =>
@@ -163,7 +182,11 @@ Scenarios == NameScenarios /\ NodeScenarios /\ OptOutScenarios
 
 (* the design claims checked on the model itself: outside the one place the code does not look
    at (a declaration on a let / expression statement) the transcription keeps the promise *)
-LooksEverywhere == \A i \in DOMAIN path : path[i].d # "none" => path[i].c # "letd"
+(* ... and a declaration in the parent file above an out-of-line module, or on its `mod x;` *)
+LooksEverywhere ==
+  \A i \in DOMAIN path : path[i].d # "none" =>
+     /\ path[i].c \notin {"letd", "modfileO"}
+     /\ \A j \in DOMAIN path : j > i => path[j].c \notin FileCtx
 ScopingSound ==
   \A t \in NameTargets(Last) : \A cfg \in Cfgs :
     LooksEverywhere => OperSkipsTarget(crated, path, cfg, t) = DeclSkipsTarget(crated, path, cfg, t)
